@@ -263,7 +263,8 @@ fn link_of(n: &NsecRec, z: &ZoneView) -> bool {
     let deleg = is_delegation_nsec(&n.types);
     if deleg {
         // only the DS bit (and the presence of the delegation itself) is authoritative
-        if !have.contains(&T_NS) || have.contains(&T_DS) != n.types.contains(&T_DS) {
+        // (a name that owns NS does not own a CNAME, on either side of the cut)
+        if !have.contains(&T_NS) || have.contains(&T_DS) != n.types.contains(&T_DS) || have.contains(&T_CNAME) {
             return false;
         }
     } else {
@@ -306,10 +307,13 @@ pub fn claim(c: &Case, z: &ZoneView) -> bool {
     match (c.rcode, c.answers.is_empty()) {
         // NXDOMAIN: the name does not exist (not even as an empty non-terminal) and no wildcard matches
         (3, _) => !z.exists(&kq) && z.closest_encloser(&kq).is_none_or(|ce| !z.exists(&star(&ce))),
-        // NODATA: type absent at the name, or name absent and type absent at the matching wildcard
+        // NODATA: type and CNAME absent at the name, and if the name is absent also at the matching wildcard
+        // (RFC 6840 §4.3: a CNAME at the name / at the wildcard would have been the answer)
         (0, true) => {
             !z.has(&kq, c.qtype)
-                && (z.exists(&kq) || z.closest_encloser(&kq).is_none_or(|ce| !z.has(&star(&ce), c.qtype)))
+                && !z.has(&kq, T_CNAME)
+                && (z.exists(&kq)
+                    || z.closest_encloser(&kq).is_none_or(|ce| !z.has(&star(&ce), c.qtype) && !z.has(&star(&ce), T_CNAME)))
         }
         // wildcard-expanded answer: for every authenticated wildcard RRSIG at the query name, the
         // name does not exist and nothing exists between it and the wildcard's parent
@@ -350,15 +354,19 @@ pub fn falsifier(c: &Case) -> Option<Option<ZoneView>> {
     let mut base = ZoneView { apex: apex.clone(), data: BTreeMap::new() };
     for (n, (ko, kn)) in c.nsecs.iter().zip(keys.iter()) {
         let mut ts: BTreeSet<u16> = n.types.iter().copied().chain([T_RRSIG, T_NSEC]).collect();
-        if is_delegation_nsec(&n.types) && c.qtype != T_DS {
-            ts.insert(c.qtype); // free: anything but DS may exist on the child side
+        if is_delegation_nsec(&n.types) {
+            // free: anything but DS (authoritative) and CNAME (excluded by NS) may exist on the child side
+            ts.remove(&T_CNAME);
+            if c.qtype != T_DS && c.qtype != T_CNAME {
+                ts.insert(c.qtype);
+            }
         }
         base.data.entry(ko.clone()).or_insert(ts);
         let _ = kn;
     }
     for (_, kn) in keys.iter() {
         if *kn != apex {
-            base.data.entry(kn.clone()).or_insert_with(|| [c.qtype].into_iter().collect());
+            base.data.entry(kn.clone()).or_insert_with(|| [c.qtype, T_CNAME].into_iter().collect());
         }
     }
     if !consistent_with(&c.nsecs, &base) {
@@ -381,7 +389,7 @@ pub fn falsifier(c: &Case) -> Option<Option<ZoneView>> {
     let with = |add: &[&Key]| -> ZoneView {
         let mut z = base.clone();
         for k in add {
-            z.data.insert((*k).clone(), [c.qtype].into_iter().collect());
+            z.data.insert((*k).clone(), [c.qtype, T_CNAME].into_iter().collect());
         }
         z
     };
@@ -434,7 +442,44 @@ pub fn classify(_c: &Case) -> &'static str {
 // exec
 // ------------------------------------------------------------------------------------------
 
+/// RFC 4035 §5.4 / RFC 6840 §4.1, §4.3 rule for a NODATA proof by an NSEC owned by the name the
+/// type is asked at (the query name, or the matching wildcard): the type is absent, CNAME is absent
+/// (it would have been the answer), the type is not NSEC/RRSIG (they exist at every NSEC owner), and
+/// a parent-side delegation record (NS without SOA) speaks for DS only.
+fn bitmap_denies(qtype: u16, bitmap: &[u16]) -> bool {
+    !bitmap.contains(&qtype)
+        && !bitmap.contains(&T_CNAME)
+        && qtype != T_NSEC
+        && qtype != T_RRSIG
+        && (!is_delegation_nsec(bitmap) || qtype == T_DS)
+}
+
+/// Expected verdict, by construction, of the "an NSEC matches QNAME" branch — for any case that
+/// reaches it (absolute names, supported rcode, SOA owner above the query name or absent, some
+/// record owned by the query name; the first such record decides).  Independent of the Lean model.
+fn expected_matching_nsec(c: &Case) -> Option<bool> {
+    if c.rcode != 0 && c.rcode != 3 {
+        return None;
+    }
+    if !c.q.is_fqdn() || c.nsecs.iter().any(|n| !n.owner.is_fqdn() || !n.next.is_fqdn()) {
+        return None;
+    }
+    let kq = key(&c.q);
+    if let Some(s) = &c.soa {
+        if !s.is_fqdn() || !is_prefix(&key(s), &kq) {
+            return None;
+        }
+    }
+    let r = c.nsecs.iter().find(|n| key(&n.owner) == kq)?;
+    Some(c.rcode == 0 && c.answers.is_empty() && bitmap_denies(c.qtype, &r.types))
+}
+
 pub fn exec(line: &str, rec: &mut Recorder) {
+    exec_expect(line, None, rec)
+}
+
+/// `expect`: the verdict the generator knows by construction (directed families), if any
+pub fn exec_expect(line: &str, expect: Option<bool>, rec: &mut Recorder) {
     let t: Vec<&str> = line.split_whitespace().collect();
     if t.first() == Some(&"e2e") {
         e2e::exec(&t, line, rec);
@@ -468,6 +513,28 @@ pub fn exec(line: &str, rec: &mut Recorder) {
                 rec.nontrivial(idx);
             }
             let cls = classify(&c);
+            // verdicts known by construction: the matching-NSEC branch (every case that reaches it)
+            // and the directed families
+            let by_rule = expected_matching_nsec(&c);
+            if by_rule.is_some() {
+                rec.stat("branch.matching-nsec");
+            }
+            for (what, e) in [("matching-NSEC rule (RFC 4035 5.4, RFC 6840 4.1/4.3)", by_rule), ("directed family", expect)] {
+                if let Some(e) = e {
+                    if (p == Proof::Secure) != e {
+                        rec.fail(
+                            idx,
+                            format!(
+                                "verify_nsec answered {} where {} is expected by construction ({what}; {mode}, qtype {})",
+                                proof_str(p),
+                                if e { "Secure" } else { "Bogus" },
+                                c.qtype
+                            ),
+                            "",
+                        );
+                    }
+                }
+            }
             if p == Proof::Secure {
                 if let Some(Some(z)) = f {
                     rec.stat(&format!("unsound.{}", if cls.is_empty() { "unclassified" } else { cls }));
@@ -788,6 +855,61 @@ fn random_case(r: &mut Rng) -> Case {
     Case { q, qtype, soa, rcode, answers, nsecs: sub }
 }
 
+/// Directed family for the branches that look at a type bitmap: query type ∈ {A, AAAA, NS, DS,
+/// CNAME, SOA, NSEC, RRSIG, ANY, unknown} × bitmap ∈ all subsets of {qtype, CNAME, NS, SOA, DS,
+/// DNAME, NSEC, RRSIG} × the name the record is used for ∈ {apex, delegation, ordinary, wildcard
+/// (asked literally), wildcard (matching a non-existent name), empty non-terminal, name below the
+/// cut}.  The expected verdict is computed by construction.
+fn directed(rec: &mut Recorder) {
+    let x = Name::from_ascii("x.").unwrap();
+    let n = |s: &str| Name::from_ascii(s).unwrap();
+    let qtypes: [u16; 10] = [T_A, 28, T_NS, T_DS, T_CNAME, T_SOA, T_NSEC, T_RRSIG, 255, 65280];
+    for qt in qtypes {
+        let bits: [u16; 8] = [qt, T_CNAME, T_NS, T_SOA, T_DS, 39, T_NSEC, T_RRSIG];
+        let mut seen: HashSet<Vec<u16>> = HashSet::new();
+        for mask in 0u32..256 {
+            let mut b: Vec<u16> = (0..8).filter(|i| mask >> i & 1 == 1).map(|i| bits[i]).collect();
+            b.sort();
+            b.dedup();
+            if !seen.insert(b.clone()) {
+                continue;
+            }
+            let one = |owner: &Name, next: &Name| vec![NsecRec { owner: owner.clone(), next: next.clone(), types: b.clone() }];
+            let denies = bitmap_denies(qt, &b);
+            let deleg = is_delegation_nsec(&b);
+            // (query name, records, [(rcode, soa present, expected)])
+            let fam: Vec<(Name, Vec<NsecRec>, Vec<(u16, bool, bool)>)> = vec![
+                (x.clone(), one(&x, &n("a.x.")), vec![(0, true, denies), (3, true, false)]),
+                (n("sub.x."), one(&n("sub.x."), &n("t.x.")), vec![(0, true, denies)]),
+                (n("www.x."), one(&n("www.x."), &n("zz.x.")), vec![(0, true, denies), (0, false, denies), (3, true, false)]),
+                (n("*.x."), one(&n("*.x."), &n("a.x.")), vec![(0, true, denies)]),
+                // a.x. does not exist; *.x. NSEC b.x. covers it and is the matching wildcard's record
+                (n("a.x."), one(&n("*.x."), &n("b.x.")), vec![(0, true, denies), (3, true, false)]),
+                // e.x. is an empty non-terminal (c.e.x. exists): NODATA whatever the type; a
+                // parent-side delegation record covers it all the same (a.x. is not above it)
+                (n("e.x."), one(&n("a.x."), &n("c.e.x.")), vec![(0, true, true), (3, true, false)]),
+                // www.sub.x. lies below sub.x.: only a record that is not the parent side of a cut
+                // proves the name error (it also covers *.sub.x.); it never proves NODATA
+                (n("www.sub.x."), one(&n("sub.x."), &n("t.x.")), vec![(3, true, !deleg), (0, true, false)]),
+            ];
+            for (q, nsecs, shapes) in fam {
+                for (rcode, with_soa, expected) in shapes {
+                    let c = Case {
+                        q: q.clone(),
+                        qtype: qt,
+                        soa: if with_soa { Some(x.clone()) } else { None },
+                        rcode,
+                        answers: vec![],
+                        nsecs: nsecs.clone(),
+                    };
+                    rec.stat("family.directed-bitmap");
+                    exec_expect(&c.line(), Some(expected), rec);
+                }
+            }
+        }
+    }
+}
+
 /// hand-built adversarial cases (also in corpus/C08/*.case)
 fn adversarial() -> Vec<String> {
     vec![]
@@ -810,6 +932,7 @@ pub fn run(o: &Opts, rec: &mut Recorder) {
     for l in adversarial() {
         exec(&l, rec);
     }
+    directed(rec);
     let x = Name::from_ascii("x.").unwrap();
     let thorough = o.thorough();
     let ab: [&[u8]; 3] = [b"a", b"b", b"*"];
